@@ -81,4 +81,225 @@ theorem writeOutputs_frame (blk : Block) (tx : Tx) : ∀ (l : List (Nat × Balan
           simp only [hopr, if_true] at h
           exact hT h
 
+
+/-! ### `indexRunesTx` in named phases (verbatim pieces of the model function) -/
+
+/-- the mint step: state, what enters `unallocated`, the event -/
+def mintTriple (st0 : State) (un0 : Balances) (blk : Block) (tx : Tx) (art : Artifact) :
+    State × Outcome Balances × List Event :=
+  match artMint art with
+  | none => (st0, .ok un0, [])
+  | some id =>
+    match mint st0 blk.height id with
+    | (s, none) => (s, .ok un0, [])
+    | (s, some amount) => (s, addLot un0 id amount, [.runeMinted amount blk.height id tx.txid])
+
+theorem mintTriple_fst (st0 : State) (un0 : Balances) (blk : Block) (tx : Tx) (art : Artifact) :
+    (mintTriple st0 un0 blk tx art).1 = mintStep st0 blk.height art := by
+  unfold mintTriple mintStep
+  cases artMint art with
+  | none => rfl
+  | some id =>
+    simp only
+    rcases mint st0 blk.height id with ⟨s, o⟩
+    cases o <;> rfl
+
+/-- mint, etching, edicts, entry creation: the only part that touches the rune tables -/
+def phase1 (st0 : State) (un0 : Balances) (blk : Block) (txIndex : Nat) (tx : Tx) :
+    Outcome (State × Balances × Allocated × List Event) :=
+  let alloc0 : Allocated := tx.outputs.map (fun _ => [])
+  match tx.artifact with
+  | none => .ok (st0, un0, alloc0, [])
+  | some art =>
+    let x := mintTriple st0 un0 blk tx art
+    let st1 := x.1
+    let un1O := x.2.1
+    let ev1 := x.2.2
+    match un1O with
+    | .panic s => .panic s
+    | .err e => .err e
+    | .ok un1 =>
+      match etched st1 blk txIndex tx art with
+      | .panic s => .panic s
+      | .err e => .err e
+      | .ok (st2, et) =>
+        let afterEdicts : Outcome (Balances × Allocated) :=
+          match art with
+          | .cenotaph .. => .ok (un1, alloc0)
+          | .runestone edicts etching _ _ =>
+            let un2O : Outcome Balances := match et with
+              | some (id, _) => addLot un1 id ((etching.bind (·.premine)).getD 0)
+              | none => .ok un1
+            match un2O with
+            | .panic s => .panic s
+            | .err e => .err e
+            | .ok un2 => applyEdicts tx (et.map (·.1)) edicts un2 alloc0
+        match afterEdicts with
+        | .panic s => .panic s
+        | .err e => .err e
+        | .ok (un3, alloc1) =>
+          match et with
+          | some (id, rune) =>
+            let (st3, ev2) := createRuneEntry st2 blk tx art id rune
+            .ok (st3, un3, alloc1, ev1 ++ ev2)
+          | none => .ok (st2, un3, alloc1, ev1)
+
+/-- leftovers: burned (cenotaph), to the pointer / first non-OP_RETURN output, or burned -/
+def phase2 (tx : Tx) (un : Balances) (alloc : Allocated) : Outcome (Allocated × Balances) :=
+  match tx.artifact with
+  | some (.cenotaph ..) =>
+    match addAllTo un [] false with
+    | .ok b => .ok (alloc, b)
+    | .panic s => .panic s
+    | .err e => .err e
+  | _ =>
+    let pointer : Option Nat := match tx.artifact with
+      | some (.runestone _ _ _ p) => p
+      | _ => none
+    let firstNonOpReturn := ((enumFrom 0 tx.outputs).find? (fun (_, o) => !o.opReturn)).map (·.1)
+    match pointer with
+    | some p =>
+      if p ≥ alloc.length then .panic "assert!(pointer < allocated.len())"
+      else match addAllTo un (alloc[p]?.getD []) true with
+        | .ok m => .ok (alloc.set p m, [])
+        | .panic s => .panic s
+        | .err e => .err e
+    | none =>
+      match firstNonOpReturn with
+      | some v =>
+        match addAllTo un (alloc[v]?.getD []) true with
+        | .ok m => .ok (alloc.set v m, [])
+        | .panic s => .panic s
+        | .err e => .err e
+      | none =>
+        match addAllTo un [] true with
+        | .ok b => .ok (alloc, b)
+        | .panic s => .panic s
+        | .err e => .err e
+
+theorem indexRunesTx_eq (st : State) (blk : Block) (txIndex : Nat) (tx : Tx) (blockBurned : Balances) :
+    indexRunesTx st blk txIndex tx blockBurned =
+      match takeInputs tx.inputs st [] with
+      | .panic s => .panic s
+      | .err e => .err e
+      | .ok (st0, un0) =>
+        match phase1 st0 un0 blk txIndex tx with
+        | .panic s => .panic s
+        | .err e => .err e
+        | .ok (st3, un, alloc, evs) =>
+          match phase2 tx un alloc with
+          | .panic s => .panic s
+          | .err e => .err e
+          | .ok (alloc2, burned0) =>
+            match writeOutputs blk tx (enumFrom 0 alloc2) st3 burned0 evs with
+            | .panic s => .panic s
+            | .err e => .err e
+            | .ok (st4, burned, evs2) =>
+              match addAllTo burned blockBurned false with
+              | .panic s => .panic s
+              | .err e => .err e
+              | .ok bb =>
+                .ok (st4, bb, evs2 ++ burned.map (fun (id, a) => Event.runeBurned a blk.height id tx.txid)) := by
+  rfl
+
+
+/-- the rune-table effect of `phase1`: mint, then `etched` on the state after the mint, then
+`createRuneEntry` if `etched` said so; also the mint result that entered `unallocated` -/
+theorem phase1_decomp (st0 : State) (un0 : Balances) (blk : Block) (t : Nat) (tx : Tx)
+    (st3 : State) (un : Balances) (alloc : Allocated) (evs : List Event)
+    (h : phase1 st0 un0 blk t tx = .ok (st3, un, alloc, evs)) :
+    match tx.artifact with
+    | none => st3 = st0
+    | some art => ∃ st2 et, etched (mintStep st0 blk.height art) blk t tx art = .ok (st2, et) ∧
+        st3 = createStep st2 blk tx art et := by
+  unfold phase1 at h
+  cases hart : tx.artifact with
+  | none =>
+    simp only [hart, Outcome.ok.injEq, Prod.mk.injEq] at h
+    exact h.1.symm
+  | some art =>
+    simp only [hart] at h
+    generalize hx : mintTriple st0 un0 blk tx art = x at h
+    have h1 : x.1 = mintStep st0 blk.height art := by rw [← hx, mintTriple_fst]
+    obtain ⟨st1, un1O, ev1⟩ := x
+    simp only at h h1
+    subst h1
+    cases un1O with
+    | panic s => simp at h
+    | err e => simp at h
+    | ok un1 =>
+      simp only at h
+      cases het : etched (mintStep st0 blk.height art) blk t tx art with
+      | panic s => simp [het] at h
+      | err e => simp [het] at h
+      | ok r =>
+        obtain ⟨st2, et⟩ := r
+        simp only [het] at h
+        refine ⟨st2, et, het, ?_⟩
+        split at h
+        · simp at h
+        · simp at h
+        · cases et with
+          | none =>
+            simp only [Outcome.ok.injEq, Prod.mk.injEq] at h
+            simp [createStep, h.1]
+          | some p =>
+            obtain ⟨id, rune⟩ := p
+            simp only [Outcome.ok.injEq, Prod.mk.injEq] at h
+            simp [createStep, ← h.1]
+
+/-- **What one transaction does to the rune tables**: only `balances` changes around a core of
+mint → etched → createRuneEntry. -/
+theorem indexRunesTx_decomp (st : State) (blk : Block) (t : Nat) (tx : Tx) (bb : Balances)
+    (st4 : State) (bb' : Balances) (evs : List Event)
+    (h : indexRunesTx st blk t tx bb = .ok (st4, bb', evs)) :
+    ∃ b0 b1, match tx.artifact with
+      | none => st4 = { st with balances := b1 }
+      | some art => ∃ st2 et,
+          etched (mintStep { st with balances := b0 } blk.height art) blk t tx art = .ok (st2, et) ∧
+          st4 = { createStep st2 blk tx art et with balances := b1 } := by
+  rw [indexRunesTx_eq] at h
+  cases hti : takeInputs tx.inputs st [] with
+  | panic s => simp [hti] at h
+  | err e => simp [hti] at h
+  | ok r0 =>
+    obtain ⟨st0, un0⟩ := r0
+    obtain ⟨b0, hb0⟩ := takeInputs_frame _ _ _ _ _ hti
+    simp only [hti] at h
+    cases hp1 : phase1 st0 un0 blk t tx with
+    | panic s => simp [hp1] at h
+    | err e => simp [hp1] at h
+    | ok r1 =>
+      obtain ⟨st3, un, alloc, evs1⟩ := r1
+      simp only [hp1] at h
+      cases hp2 : phase2 tx un alloc with
+      | panic s => simp [hp2] at h
+      | err e => simp [hp2] at h
+      | ok r2 =>
+        obtain ⟨alloc2, burned0⟩ := r2
+        simp only [hp2] at h
+        cases hwo : writeOutputs blk tx (enumFrom 0 alloc2) st3 burned0 evs1 with
+        | panic s => simp [hwo] at h
+        | err e => simp [hwo] at h
+        | ok r3 =>
+          obtain ⟨st4', burned, evs2⟩ := r3
+          simp only [hwo] at h
+          obtain ⟨b1, hb1⟩ := writeOutputs_frame _ _ _ _ _ _ _ _ _ hwo
+          cases hab : addAllTo burned bb false with
+          | panic s => simp [hab] at h
+          | err e => simp [hab] at h
+          | ok bb2 =>
+            simp only [hab, Outcome.ok.injEq, Prod.mk.injEq] at h
+            obtain ⟨rfl, _, _⟩ := h
+            have hd := phase1_decomp st0 un0 blk t tx st3 un alloc evs1 hp1
+            refine ⟨b0, b1, ?_⟩
+            cases hart : tx.artifact with
+            | none =>
+              simp only [hart] at hd ⊢
+              rw [hb1, hd, hb0]
+            | some art =>
+              simp only [hart] at hd ⊢
+              obtain ⟨st2, et, he, hc⟩ := hd
+              exact ⟨st2, et, hb0 ▸ he, by rw [hb1, hc]⟩
+
 end Ord.Index.Runemint
